@@ -141,7 +141,7 @@ ATTRS = [["x", "", "", 0, None], ["x", "=", "y", 0, None], ["x", "=", "v w", 1, 
          ["x", "=", "y", 0, "i"], ["y", "^=", "z z", 1, "s"]]
 PLAIN_PS = [["hover", False, None], ["focus", False, None], ["first-child", False, None], ["before", False, None],
             ["after", True, None], ["root", False, None]]
-OTHER_PS = [["foo", False, ["o", "\"x\""]], ["bar", False, ["o", "a=b"]]]     # not accepted by the SCSS-level parser
+OTHER_PS = [["foo", False, ["o", "x/y"]], ["bar", False, ["o", "a=b"]]]     # not accepted by the SCSS-level parser
 SEL_PS = ["not", "is", "where", "matches", "has", "-moz-any", "-webkit-not", "host", "current", "slotted", "nth-child"]
 
 
